@@ -60,6 +60,10 @@ def make_scene(d, rng):
     src = src * (lab[None, None, :] == np.arange(K)[:, None, None])
     images = steer[:, :, :, None] * src[:, :, None, :]       # (K, F, D, T)
     snr_db = d.choice([40, 50, 60])
+    if d.epoch >= 3 and d.aux(173).integers(0, 4) == 0:
+        # "at least 40 dB below": also far less noise (simulated data, 24-bit
+        # recordings): the noise PSD estimates approach singularity
+        snr_db = float(np.round(d.aux(174).uniform(60, 130), 1))
     p_src = np.mean(np.abs(images.sum(0)) ** 2)
     noise = gen.cnormal(rng, (F, D, T)) * np.sqrt(p_src * 10 ** (-snr_db / 10))
     # overall recording level (a quiet or a loud recording: the property does
